@@ -60,7 +60,7 @@ func NewProgram(r *rand.Rand, name string, maxDepth, budget int) *Program {
 	main.End = g.endSep(main.Body, ctxTop)
 	p.Comps = append([]*Component{main}, g.callees...)
 	p.GoFunc = r.Intn(3) == 0
-	p.CRLF = false
+	p.CRLF = r.Intn(12) == 0
 	return p
 }
 
@@ -271,6 +271,9 @@ func (g *Gen) nodes(sc *scope, depth int, allowSlot bool, ctx pctx) []*Node {
 		nd := g.node(sc, depth, ctx)
 		if nd == nil {
 			continue
+		}
+		if r.Intn(3) == 0 {
+			nd.Sp = uint8(r.Intn(256))
 		}
 		out = append(out, nd)
 	}
@@ -624,6 +627,11 @@ func (g *Gen) endSep(ns []*Node, ctx pctx) Sep {
 			return SepNone
 		}
 		return pick(g.R, []Sep{SepNone, SepNone, SepSpace})
+	case ctxFlow:
+		if g.R.Intn(8) == 0 && last.Kind != KText && !(last.Kind == KCall && !last.HasBlock) && last.Kind != KGoCode {
+			return pick(g.R, []Sep{SepNone, SepSpace})
+		}
+		return SepNL
 	default:
 		return SepNL
 	}
